@@ -181,6 +181,27 @@ def _call_value(self, callee, pos, kw, node, fr, star=None, dstar=None):
         self.emit('call', node, fr, name='<param:' + ca.args[0] + '>', resolved=None, args=pos, kwargs=kw,
                   external=True, user_callable=True)
         return Term.of(Atom('call', 'apply', tuple([callee] + pos), tuple(sorted(kw, key=lambda x: x[0]))))
+    if ca.kind == 'call' and str(ca.args[0]).split('.')[-1] == 'namedtuple' and len(ca.args[1]) >= 2:
+        # a class made by collections.namedtuple(name, fields): its instances are immutable records; a field read by name
+        # or position is the value it was constructed with
+        fa = ca.args[1][1].single_atom()
+        fields = None
+        if fa is not None and fa.kind in ('list', 'tuple') and all(x.single_atom() is not None and x.single_atom().kind == 'str'
+                                                                  for x in fa.args):
+            fields = [x.single_atom().args[0] for x in fa.args]
+        elif fa is not None and fa.kind == 'str':
+            fields = fa.args[0].replace(',', ' ').split()
+        na = ca.args[1][0].single_atom()
+        if fields and na is not None and na.kind == 'str' and star is None and dstar is None and len(pos) <= len(fields):
+            vals = dict(zip(fields, pos))
+            ok_ = True
+            for k_, v_ in kw:
+                if k_ not in fields or k_ in vals:
+                    ok_ = False
+                vals[k_] = v_
+            dflt = dict(ca.args[2]).get('defaults')
+            if ok_ and all(f_ in vals for f_ in fields) and dflt is None:
+                return Term.of(Atom('record', na.args[0], tuple((f_, vals[f_]) for f_ in fields)))
     return self._opaque_call('<dynamic>', [callee] + pos, kw, node, fr)
 
 
